@@ -222,8 +222,13 @@ class Genuine:
             if a and a["target"] == "cert:" + nm:
                 self.events.append(("altered", a["target"]))
                 der = certs.flip_in_signed_or_signature(der, a["pos"], a["bit"])
-            pem += (b"-----BEGIN CERTIFICATE-----\n" +
-                    certs.der_to_b64(der).encode() + b"\n-----END CERTIFICATE-----\n")
+            b64 = certs.der_to_b64(der)
+            wrap = s.get("pem_wrap", 0)
+            if wrap:
+                # lines of 64 (RFC 7468, what openssl and Intel's services emit) or 76 characters
+                b64 = "\n".join(b64[i:i + wrap] for i in range(0, len(b64), wrap))
+            pem += (b"-----BEGIN CERTIFICATE-----\n" + b64.encode() +
+                    b"\n-----END CERTIFICATE-----\n")
         if s.get("third_cert", True):
             pem += certs.cert_pem(v.root_cert)
         auth = self._alt("auth-data", v.auth)
